@@ -474,4 +474,54 @@ theorem include_table (f : Pred ι μ) {s : View ι μ} {c : Change ι μ} (hc :
         cases hf : f ci (some v) <;> cases hg : f ci (some o) <;>
           simp [includeChange, hf, hg, filt, exclude, hs, apply, View.set]
 
+/-! ### read mask: projection after include -/
+
+theorem projView_set (proj : μ → μ) (s : View ι μ) (i : ι) (v : Option μ) :
+    projView proj (s.set i v) = (projView proj s).set i (v.map proj) := by
+  funext j
+  by_cases h : j = i
+  · subst h; simp [projView]
+  · simp [projView, View.set, h]
+
+theorem mask_wf (proj : μ → μ) {s : View ι μ} {c : Change ι μ} (hc : WFChange s c) :
+    WFChange (projView proj s) (maskChange proj c) ∧
+    apply (maskChange proj c) (projView proj s) = projView proj (apply c s) := by
+  rcases c with ⟨ci, ck, ct, co, cn, cs, cl⟩
+  refine ⟨?_, ?_⟩
+  · cases ck <;> simp only [WFChange] at hc <;> simp only [WFChange, maskChange, projView]
+    · obtain ⟨h1, h2, h3⟩ := hc
+      simp [h1, h2, h3]
+    · obtain ⟨h1, h2, h3⟩ := hc
+      simp [h1, h2, h3]
+    · obtain ⟨h1, h2, h3⟩ := hc
+      simp [h1, h2, h3]
+    · obtain ⟨h1, h2, h3⟩ := hc
+      simp [h1, h2, h3]
+  · simp only [apply, maskChange, projView_set]
+    cases ck <;> simp
+
+theorem mask_hist (proj : μ → μ) (s : View ι μ) (cs : List (Change ι μ)) (h : WFHist s cs) :
+    WFHist (projView proj s) (cs.map (maskChange proj)) ∧
+    fold (cs.map (maskChange proj)) (projView proj s) = projView proj (fold cs s) := by
+  induction cs generalizing s with
+  | nil => exact ⟨trivial, rfl⟩
+  | cons c cs ih =>
+    obtain ⟨hc, hcs⟩ := h
+    have hm := mask_wf proj hc
+    have := ih (apply c s) hcs
+    simp only [List.map_cons, WFHist, fold_cons]
+    rw [hm.2]
+    exact ⟨⟨hm.1, this.1⟩, this.2⟩
+
+omit [DecidableEq ι] in
+theorem filterMap_pullEvent (p : Option (Pred ι μ)) (proj : μ → μ) (cs : List (Change ι μ)) :
+    cs.filterMap (pullEvent p proj) = (cs.filterMap (includeChange p)).map (maskChange proj) := by
+  induction cs with
+  | nil => rfl
+  | cons c cs ih =>
+    simp only [List.filterMap_cons, pullEvent]
+    cases includeChange p c with
+    | none => simpa [pullEvent] using ih
+    | some d => simpa [pullEvent] using ih
+
 end ScVerif.C08
